@@ -2,6 +2,7 @@
 from pyvc.api import *
 
 SPEC_FUNCTIONS = ['text_len', 'eff_line', 'pos_in_range', 'eff_column']
+SPEC_IMPORTS = ['contracts.common', 'contracts.c11']
 
 
 def text_len(line):
@@ -206,3 +207,10 @@ CONTRACTS = [
     ),
     _until_contract('extract_variable'), _until_contract('extract_function'),
 ] + _errors
+
+
+def dynamic_contracts(repo):
+    """Signature.index is computed lazily when a result of get_signatures() is looked at: the exception-freedom
+    (safety) obligations of CallDetails.calculate_index are shared with C11 (bounded shapes: n arguments, m params)"""
+    from contracts import c11
+    return list(c11.CALC)
